@@ -52,11 +52,11 @@ function JINVCALL(g, x){ return JINV[g](x); }
 type jevent struct {
 	Line map[string]any
 	// how to run it again
-	kind string
-	f, g string
-	args []float64
+	kind  string
+	f, g  string
+	args  []float64
 	args2 []float64 // mono: second evaluation
-	s    string
+	s     string
 }
 
 type jvm struct{ vm *otto.Otto }
